@@ -613,11 +613,15 @@ Class(X, FJ, f) ==
 \* (FJ[j]: the facts about the root type of the form's dynamic value)
 Classify(X, FJ, fs) == [i \in 1..Len(fs) |-> [fs[i] EXCEPT !.x = Class(X, FJ, fs[i])]]
 
+\* (a shared-site form inherits the class of its single-use form, which the exhaustive tier runs:
+\* the shared-site forms of the listed classes are never generated; F-C05-10 has its witness)
+UnlistedShared(H, F) == SelectSeq(Classify(H, H.fj, SharedForms(H, F)), LAMBDA f : f.x = "")
+
 AllForms(H) ==
     LET F == Facts(H)
         X == Ext(H) IN
     Classify(X, X.fj, StaticForms(X, F) \o IfaceForms(X, F) \o AssertForms(X, F) \o SwitchForms(X, F) \o HostForms(X, F)
-                             \o SharedForms(X, F))
+                             \o UnlistedShared(X, F))
 
 -------------------------------------------------------------------------------
 VARIABLES h, phase, forms
@@ -651,7 +655,7 @@ GenIface  == Step("iface",  "assert", IfaceForms)
 GenAssert == Step("assert", "switch", AssertForms)
 GenSwitch == Step("switch", "host",   SwitchForms)
 GenHost   == Step("host",   "shared", HostForms)
-GenShared == Step("shared", "done",   SharedForms)
+GenShared == Step("shared", "done",   UnlistedShared)
 Next == GenStatic \/ GenIface \/ GenAssert \/ GenSwitch \/ GenHost \/ GenShared
 Spec == Init /\ [][Next]_vars
 
